@@ -612,7 +612,7 @@ theorem Inv.writePayload {c : Cfg} {σ : St} (h : Inv c σ) (r : Nat) (cf : Bool
   unfold Nuts.C14.writePayload
   split; · exact h
   split; · exact h
-  split; · exact h
+  split; · (split; exact h; exact Inv.pending h _)
   next hd _ _ =>
   simp only
   apply Inv.pending
@@ -824,7 +824,7 @@ theorem Inv2.writePayload {c : Cfg} {σ : St} (hskip : c.skipPresent = true) (h1
   unfold Nuts.C14.writePayload
   split; · exact h
   split; · exact h
-  split; · exact h
+  split; · (split; exact h; exact Inv2.pending h _)
   next _ _ hns =>
   simp only
   apply Inv2.pending
@@ -1486,7 +1486,13 @@ theorem Covered.writePayload {c : Cfg} {σ : St} (h : Covered c σ) (r : Nat) (c
   unfold Nuts.C14.writePayload
   split; · exact ⟨h, Grows.refl _, fun h => h⟩
   split; · exact ⟨h, Grows.refl _, fun h => h⟩
-  split; · exact ⟨h, Grows.refl _, fun h => h⟩
+  split
+  · split
+    · exact ⟨h, Grows.refl _, fun h => h⟩
+    · refine ⟨?_, Grows.refl _, fun h => h⟩
+      intro s r' hs hr
+      exact CovAt.keep (h s r' hs hr) (fun j' hj' _ => ⟨j', hj', Nat.le_refl _⟩) (fun t ht _ _ => ht)
+        (fun ty hp _ => by simp [hp])
   simp only
   refine ⟨?_, ⟨[], by simp [saveEvent_ledger]⟩, ?_⟩
   · intro s r' hs hr
